@@ -38,9 +38,21 @@ var poolMethods = &hist.Pool{
 	Patterns: []string{"/a", "/a/b"},
 }
 
+// poolInfix: a route whose key holds an infix catch-all followed by a suffix (resolved through a
+// precomputed sub-node), with routes below it.
+var poolInfix = &hist.Pool{
+	Methods:  []string{"GET", "FOO"},
+	Patterns: []string{"/*{x}/r", "/*{x}/r/m", "/*{x}/r/b", "/*{x}/rb", "/*{x}/r/*{y}/e"},
+}
+
 var pool = poolPrefix
 
 func usePool(name string) {
+	if name == "infix" {
+		pool = poolInfix
+		probes = []probe{{"GET", "/1/r"}, {"GET", "/1/r/m"}, {"GET", "/1/r/b"}, {"GET", "/1/rb"}, {"GET", "/1/2/r"}, {"GET", "/1/r/2/e"}, {"FOO", "/a"}}
+		return
+	}
 	if name == "methods" {
 		pool = poolMethods
 		probes = []probe{{"GET", "/a"}, {"GET", "/a/b"}, {"FOO", "/a"}, {"BAR", "/a"}, {"BAR", "/a/b"}, {"PUT", "/a"}}
@@ -719,6 +731,7 @@ func init() {
 				runSeq(c, r, "prefixes")
 				runSeq(c, r, "siblings")
 				runSeq(c, r, "methods")
+				runSeq(c, r, "infix")
 			}, Replay: func(c *mc.Ctx, raw json.RawMessage) string {
 				un := mc.DeterministicPools()
 				defer un()
